@@ -355,13 +355,20 @@ func init() {
 		if hasMeta(sr) {
 			files = s.globRel(sb, sr)
 		}
-		// probe=1 (remote source, one file): the copy is ONE session on its destination -- from the moment it
-		// has opened (or created) the destination until it returns, the destination stays locked, in
-		// particular for the whole time the source is being fetched
-		held := ""
-		if a.num("probe", 0) == 1 && remote {
+		// intruder=T:BITS,.. watch=T (remote source, one file, existing destination): while the source is being
+		// fetched another session (Open, read slot "watch" of archive 0, write the points, Sync, Close) is started
+		// on the destination.  It gets the file before the copy reads it, or after the copy has written it --
+		// whichever the code's locking makes of it; what it read says which, and the file afterwards is the
+		// outcome of that order.
+		var intr *intruder
+		if a["intruder"] != "" && remote {
 			stop := func() {}
-			c.SrcBase, stop = s.probingProxy(filepath.Join(s.dir, db, dr), &held)
+			intr = &intruder{dest: filepath.Join(s.dir, db, dr), watch: atoi(a["watch"]), done: make(chan struct{})}
+			for _, tv := range strings.Split(a["intruder"], ",") {
+				p := strings.SplitN(tv, ":", 2)
+				intr.pts = append(intr.pts, wt.Point{Time: wt.Timestamp(atoi(p[0])), Value: hexv(p[1])})
+			}
+			c.SrcBase, stop = s.intruderProxy(intr)
 			defer stop()
 		}
 		liveDone := s.startLive(a)
@@ -373,10 +380,14 @@ func init() {
 		if a["live"] != "" {
 			liveAt = " liveat=" + <-liveDone
 		}
-		s.echo(fmt.Sprintf("%s nows=%s files=%s clock=%d,%d%s", strings.Join(tk, " "), csvOrDash(nows), csvOrDash(files), t0, t1, liveAt))
+		isaw := ""
+		if intr != nil {
+			isaw = " " + intr.wait()
+		}
+		s.echo(fmt.Sprintf("%s nows=%s files=%s clock=%d,%d%s%s", strings.Join(tk, " "), csvOrDash(nows), csvOrDash(files), t0, t1, liveAt, isaw))
 		s.emit("clicopy", statusOf(err, panicked), recs)
-		if a.num("probe", 0) == 1 && remote {
-			s.obs("clicopy-held %s", held)
+		if intr != nil {
+			s.obs("clicopy-intruder %s", intr.result)
 		}
 	}
 	handlers["clidiff"] = func(s *sess, tk []string) {
@@ -462,21 +473,28 @@ func init() {
 			ArchiveID: int(a.num("archive", -1)), TextOut: to, ShowHeader: a.num("header", 1) == 1,
 		}
 		release := s.holdLock(a.str("hold", ""))
-		// probe=1: sum only reads; when it returns -- with a sum or with an error -- none of the files it
-		// matched is still held (checked before any finaliser could close a forgotten handle)
-		held := -1
+		// again=1: the same sum once more, at once (before any finaliser could tidy up after the first run): a
+		// sum -- accepted or rejected -- can be repeated and gives the same verdict; one that does not return
+		// within a few seconds is reported as such
+		again := ""
 		var probe func()
-		if a.num("probe", 0) == 1 && !remote && a.str("hold", "") == "" {
-			matched, _ := filepath.Glob(filepath.Join(s.dir, a["base"], a["item"], a["src"]))
+		if a.num("again", 0) == 1 && !remote && a.str("hold", "") == "" {
 			probe = func() {
-				held = 0
-				for _, p := range matched {
-					if st, err := os.Stat(p); err != nil || !st.Mode().IsRegular() {
-						continue
-					}
-					if free, err := flockProbe(p); err == nil && !free {
-						held++
-					}
+				c2 := *c
+				c2.TextOut = ""
+				done := make(chan string, 1)
+				go func() {
+					defer func() {
+						if recover() != nil {
+							done <- "panic"
+						}
+					}()
+					done <- statusOf(c2.Execute(), false)
+				}()
+				select {
+				case again = <-done:
+				case <-time.After(6 * time.Second):
+					again = "hang"
 				}
 			}
 		}
@@ -487,8 +505,8 @@ func init() {
 		recs, nows := parseOutput(readOut())
 		s.echo(fmt.Sprintf("%s nows=%s items=%s clock=%d,%d", strings.Join(tk, " "), csvOrDash(nows), itemsOracle(s, a["base"], a["item"], a["src"]), t0, t1))
 		s.emit("clisum", statusOf(err, panicked), recs)
-		if held >= 0 {
-			s.obs("clisum-held %d", held)
+		if again != "" {
+			s.obs("clisum-again %s", again)
 		}
 	}
 	handlers["clisumcopy"] = func(s *sess, tk []string) {
